@@ -20,6 +20,8 @@ G4 = {
     'diamond': (4, [(0, 1), (1, 2), (2, 3), (3, 0), (0, 2)]),
 }
 EXTRA = {
+    'K2loop': (2, [(0, 1), (0, 0)]),          # self-loops: a node is not its own contact
+    'P3loop': (3, [(0, 1), (1, 2), (1, 1)]),
     'irr5': (5, [(0, 1), (1, 2), (2, 3), (1, 3), (3, 4)]),
     'paw+K1': (5, [(0, 1), (1, 2), (0, 2), (2, 3)]),
     'P5': (5, [(0, 1), (1, 2), (2, 3), (3, 4)]),
